@@ -81,6 +81,11 @@ SCENARIOS = {
         type Thing { shade: Shade form: Form name: String inner: Thing }
         type Query { thing: Thing }
         """, "fragment Base on Thing { name form } fragment Top on Thing { shade ...Base inner { ...Base } } query T { thing { ...Top } }", {}),
+    "enum-field-selected-next-to-a-fragment-spread-that-becomes-a-base-class": ("""
+        enum Kind { K1 K2 } enum Tone { T1 } enum InFragment { F1 } enum Unused4 { U }
+        type Thing { kind: Kind tone: Tone f: InFragment name: String child: Thing }
+        type Query { thing: Thing }
+        """, "fragment TF on Thing { name f } query GetT { thing { kind ...TF child { tone ...TF } } }", {}),
     "custom-operations-enabled-next-to-operations": ("""
         enum Used { A } enum OnlyInSchema { B } enum ArgEnum { C }
         input In { n: Int }
